@@ -79,10 +79,12 @@ UpdVerdict(cfg, st, e, u, k) ==
   \* updated although it (transitively) waits for itself: an unbroken cycle was not reported (C04)
   ELSE IF ~Available(cfg, st, c) THEN Fail(IF c \in LacksPlus(cfg, st, c) THEN "cycle-not-reported" ELSE "avail", k)
   ELSE IF e.ta # u.s.time[c] \/ e.ta <= e.tb THEN Fail("monotone", k)
-  ELSE IF \E x \in 1..Len(e.log) : ~e.log[x].ok THEN Fail("served", k)
+  \* a refused pull; "-as-modelled": the specification's own update refuses a pull here as well (only the
+  \* design-level defects recorded as known findings can do that), otherwise the refusal is the code's alone
+  ELSE IF \E x \in 1..Len(e.log) : ~e.log[x].ok THEN Fail(IF u.ok THEN "served" ELSE "served-as-modelled", k)
   ELSE IF \E x \in 1..Len(e.nlog) : ~e.nlog[x].ok THEN Fail("served-notify", k)
   ELSE IF e.fail /\ ReadsMerger(cfg, c) THEN Fail("merger-raised", k)
-  ELSE IF e.fail THEN Fail("update-raised", k)
+  ELSE IF e.fail THEN Fail(IF u.ok THEN "update-raised" ELSE "update-raised-as-modelled", k)
   ELSE IF ~ProviderOK(cfg, ProviderPart(cfg, ProjLog(e.log)), ProviderPart(cfg, ProjLog(u.log))) THEN Fail("provider-time", k)
   ELSE IF ~ProviderOK(cfg, ProjLog(e.log), ProjLog(u.log)) THEN Fail("delay-shift", k)
   ELSE IF ProjSet(e.nlog) # ProjSet(u.nlog) THEN Fail("delay-shift-notify", k)
